@@ -975,6 +975,7 @@ def m_vec_push(ex, m, argv, guard, st, callee):
     nv = Model('vec', items=Agg(items, 'vecitems'), len=zsimp(ln + bv(1, 64)),
                cap=zsimp(zite(z3.UGE(ln, v.f['cap']), ln + bv(1, 64), v.f['cap'])))
     ex.write_cell(st, ref.cell, ref.path, nv)
+    _key_stack_len(st, ref, nv, argv[1])
     return guard, UNIT
 
 
@@ -999,6 +1000,9 @@ def m_vec_deref(ex, m, argv, guard, st, callee):
 
 
 def m_vec_is_empty(ex, m, argv, guard, st, callee):
+    hv = _hvec(ex, st, argv[0])
+    if hv is not None:
+        return guard, hv.f['len'] == bv(0, 64)
     v = _vec_get(ex, st, argv[0])
     return guard, v.f['len'] == bv(0, 64)
 
@@ -1045,6 +1049,20 @@ def m_vec_new(ex, m, argv, guard, st, callee):
     return guard, new_vec(ex.vec_new_slots, bv(0, 64), bv(0, 64))
 
 
+def _key_stack_len(st, ref, vec, elem=None):
+    """A Vec whose elements are Vecs is a stack (scope stack): its length is kept concrete by never merging states that
+    disagree on it."""
+    is_stack = isinstance(elem, Model) or any(isinstance(x, Model) for x in vec.f['items'].fields)
+    if not is_stack:
+        return
+    ln = zsimp(vec.f['len'])
+    k = (ref.cell[0], '%s%r#len' % (ref.cell[1], ref.path))
+    if z3.is_bv_value(ln):
+        st.ckey[k] = ln.as_long()
+    else:
+        st.ckey.pop(k, None)
+
+
 def m_vec_pop(ex, m, argv, guard, st, callee):
     ref = argv[0]
     v = ex.read_ref(st, ref)
@@ -1059,7 +1077,9 @@ def m_vec_pop(ex, m, argv, guard, st, callee):
         return guard, none
     filled = [x if x is not None else present[0] for x in items]
     last = select(filled, ln - bv(1, 64)) if not z3.is_bv_value(zsimp(ln)) or zsimp(ln).as_long() > 0 else present[0]
-    ex.write_cell(st, ref.cell, ref.path, Model('vec', items=v.f['items'], len=zsimp(zite(nonempty, ln - bv(1, 64), ln)), cap=v.f['cap']))
+    nv = Model('vec', items=v.f['items'], len=zsimp(zite(nonempty, ln - bv(1, 64), ln)), cap=v.f['cap'])
+    ex.write_cell(st, ref.cell, ref.path, nv)
+    _key_stack_len(st, ref, nv)
     return guard, option(ex, nonempty, last)
 
 
@@ -1093,27 +1113,59 @@ def m_map_collect(ex, m, argv, guard, st, callee):
     ex.fresh_n += 1
     cell = (0, 'closure%d' % ex.fresh_n)
     st.mem[cell] = clo
-    out = [None] * len(items)
     order = list(enumerate(items))
     if backwards:
         order.reverse()
+    from mirsym import merge_states
+    outcell = (0, 'collect%d' % ex.fresh_n)
+    # branches: states that disagree on a merge key (scope-stack depth, cursors) are carried separately through the
+    # remaining elements and regrouped after every element
+    branches = [(guard, st, {})]
     for i, x in order:
         active = zsimp(z3.ULT(bv(i, 64), ln))
         if x is None or z3.is_false(active):
             continue
-        before = st.copy()
-        g2, r = ex.call_function(target.fn, [PlaceRef(cell), x], zand(guard, active), st)
-        out[i] = r
-        if not z3.is_true(active):
-            from mirsym import merge_states
-            _g, merged = merge_states([(active, st.copy()), (znot(active), before)])
-            st.mem, st.dom, st.ckey = merged.mem, merged.dom, merged.ckey
-    del st.mem[cell]
-    # one spare slot so that a following push does not exceed the model
-    if backwards:
-        # results are kept at the index of their source element; the logical order is the reverse
-        return guard, Model('vec', items=Agg(out + [None], 'vecitems'), len=ln, cap=zsimp(ln + bv(1, 64)), rev=True)
-    return guard, Model('vec', items=Agg(out + [None], 'vecitems'), len=ln, cap=zsimp(ln + bv(1, 64)))
+        nxt = []
+        for g0, s0, out0 in branches:
+            before = None if z3.is_true(active) else s0.copy()
+            for g2, r, s2 in ex.call_function_multi(target.fn, [PlaceRef(cell), x], zand(g0, active), s0):
+                if z3.is_false(g2):
+                    continue
+                o2 = dict(out0)
+                o2[i] = r if r is not None else UNIT
+                nxt.append((g2, s2, o2))
+            if before is not None:
+                nxt.append((zand(g0, znot(active)), before, dict(out0)))
+        groups = {}
+        for g_, s_, o_ in nxt:
+            groups.setdefault((s_.key(), tuple(sorted(o_))), []).append((g_, s_, o_))
+        branches = []
+        for gk in sorted(groups, key=repr):
+            grp = groups[gk]
+            if len(grp) == 1:
+                branches.append(grp[0])
+                continue
+            idx = sorted(grp[0][2])
+            for g_, s_, o_ in grp:
+                s_.mem[outcell] = Agg([o_[j] for j in idx], 'collected')
+            gm, sm = merge_states([(g_, s_) for g_, s_, _ in grp])
+            om = dict(zip(idx, sm.mem.pop(outcell).fields))
+            branches.append((gm, sm, om))
+    res = []
+    for g_, s_, o_ in branches:
+        s_.mem.pop(cell, None)
+        out = [o_.get(j) for j in range(len(items))]
+        # one spare slot so that a following push does not exceed the model; results of a reversed iteration are kept
+        # at the index of their source element, the logical order is the reverse
+        kw = {'rev': True} if backwards else {}
+        v = Model('vec', items=Agg(out + [None], 'vecitems'), len=ln, cap=zsimp(ln + bv(1, 64)), **kw)
+        res.append((g_, v, s_))
+    if len(res) == 1:
+        s_ = res[0][2]
+        if s_ is not st:
+            st.mem, st.dom, st.ckey = s_.mem, s_.dom, s_.ckey
+        return res[0][0], res[0][1]
+    return res
 
 
 def m_into_iter_rev(ex, m, argv, guard, st, callee):
@@ -1183,6 +1235,340 @@ def m_iter_find(ex, m, argv, guard, st, callee):
     return guard, res
 
 
+def m_iter_filter(ex, m, argv, guard, st, callee):
+    it = argv[0]
+    if not (isinstance(it, Model) and it.kind == 'slice_iter'):
+        raise Unsupported("filter on %r" % (it,))
+    return guard, Model('filter_iter', it=it, fn=argv[1])
+
+
+def m_filter_count(ex, m, argv, guard, st, callee):
+    fi = argv[0]
+    if not (isinstance(fi, Model) and fi.kind == 'filter_iter'):
+        raise Unsupported("count on %r" % (fi,))
+    it, cl = fi.f['it'], fi.f['fn']
+    s = it.f['slice']
+    target = find_closure(ex, cl.tag)
+    ex.fresh_n += 1
+    cell = (0, 'closure%d' % ex.fresh_n)
+    st.mem[cell] = cl
+    total = bv(0, 64)
+    for j, elem in enumerate(s.backing):
+        active = zsimp(zand(z3.ULE(s.start + it.f['pos'], bv(j, 64)), z3.ULT(bv(j, 64), s.start + s.length)))
+        if z3.is_false(active) or elem is None:
+            continue
+        item = ValRef(elem) if it.f['by_ref'] else elem
+        g2, b = ex.call_function(target.fn, [PlaceRef(cell), ValRef(item)], zand(guard, active), st.copy())
+        total = total + zite(zand(active, b), bv(1, 64), bv(0, 64))
+    del st.mem[cell]
+    return guard, total
+
+
+# ---- HashSet<u32> as a bit set of `abstract_types['HashSet']` bits: members are assumed below that width (a larger member is a
+# 'bound' obligation, i.e. outside the model, never silently dropped)
+def _hs_width(ex):
+    w = ex.abstract_types.get('HashSet')
+    if not w:
+        raise Unsupported("HashSet without a bit-set width (abstract_types['HashSet'])")
+    return w
+
+
+def _hs_bit(ex, guard, idv):
+    w = _hs_width(ex)
+    if not is_z3(idv):
+        raise Unsupported("HashSet member %r" % (idv,))
+    n = idv.size()
+    ex.oblige('bound', zand(guard, z3.UGE(idv, bv(w, n))), 'HashSet member beyond the %d-bit set model' % w)
+    sh = z3.Extract(w - 1, 0, idv) if n > w else (z3.ZeroExt(w - n, idv) if n < w else idv)
+    return bv(1, w) << sh
+
+
+def m_hashset_new(ex, m, argv, guard, st, callee):
+    return guard, bv(0, _hs_width(ex))
+
+
+def m_hashset_insert(ex, m, argv, guard, st, callee):
+    ref, idv = argv[0], deref_any(ex, st, argv[1])
+    if not isinstance(ref, PlaceRef):
+        raise Unsupported("HashSet::insert through %s" % type(ref).__name__)
+    old = ex.read_ref(st, ref)
+    bit = _hs_bit(ex, guard, idv)
+    ex.write_cell(st, ref.cell, ref.path, zsimp(old | bit))
+    return guard, zsimp((old & bit) == bv(0, _hs_width(ex)))
+
+
+def m_hashset_contains(ex, m, argv, guard, st, callee):
+    sv, idv = deref_any(ex, st, argv[0]), deref_any(ex, st, argv[1])
+    bit = _hs_bit(ex, guard, idv)
+    return guard, zsimp((sv & bit) != bv(0, _hs_width(ex)))
+
+
+def m_hashset_is_empty(ex, m, argv, guard, st, callee):
+    return guard, zsimp(deref_any(ex, st, argv[0]) == bv(0, _hs_width(ex)))
+
+
+def m_hashset_binop(ex, m, argv, guard, st, callee):
+    a, b = deref_any(ex, st, argv[0]), deref_any(ex, st, argv[1])
+    op = m.group(1)
+    if op == 'BitOr':
+        return guard, zsimp(a | b)
+    if op == 'BitAnd':
+        return guard, zsimp(a & b)
+    if op == 'Sub':
+        return guard, zsimp(a & ~b)
+    if op == 'BitXor':
+        return guard, zsimp(a ^ b)
+    raise Unsupported("HashSet operator %s" % op)
+
+
+def m_hashset_len(ex, m, argv, guard, st, callee):
+    sv = deref_any(ex, st, argv[0])
+    total = bv(0, 64)
+    for i in range(_hs_width(ex)):
+        total = total + z3.ZeroExt(63, z3.Extract(i, i, sv))
+    return guard, zsimp(total)
+
+
+# ---- slice::IterMut over a whole Vec (fixed-slot model): elements are handed out as places inside the Vec
+def m_vec_iter_mut(ex, m, argv, guard, st, callee):
+    a = argv[0]
+    if isinstance(a, Model) and a.kind == 'vec_mut_slice':
+        ref = a.f['ref']
+    elif isinstance(a, PlaceRef):
+        ref = a
+    else:
+        raise Unsupported("iter_mut on %r" % (a,))
+    v = ex.read_ref(st, ref)
+    if not (isinstance(v, Model) and v.kind == 'vec') or v.f.get('rev', False):
+        raise Unsupported("iter_mut over %r" % (v,))
+    return guard, Model('vec_iter_mut', ref=ref, pos=bv(0, 64))
+
+
+def _iter_mut_get(ex, st, a):
+    it = ex.read_ref(st, a) if isinstance(a, PlaceRef) else a
+    if not (isinstance(it, Model) and it.kind == 'vec_iter_mut'):
+        raise Unsupported("not a modelled IterMut: %r" % (it,))
+    return it
+
+
+def m_iter_mut_next(ex, m, argv, guard, st, callee):
+    a = argv[0]
+    if not isinstance(a, PlaceRef):
+        raise Unsupported("IterMut::next through %s" % type(a).__name__)
+    it = _iter_mut_get(ex, st, a)
+    ref, p = it.f['ref'], zsimp(it.f['pos'])
+    if not z3.is_bv_value(p):
+        raise Unsupported("IterMut::next at a symbolic position")
+    p = p.as_long()
+    v = ex.read_ref(st, ref)
+    items = v.f['items'].fields
+    none = EnumV(ex.defs.find_enum('Option'), bv(0, 64), {'None': ()})
+    if p >= len(items) or items[p] is None:
+        ex.oblige('bound', zand(guard, z3.UGT(v.f['len'], bv(p, 64))), 'IterMut beyond the slots of the Vec model')
+        return guard, none
+    has = zsimp(z3.ULT(bv(p, 64), v.f['len']))
+    ex.write_cell(st, a.cell, a.path, Model('vec_iter_mut', ref=ref, pos=bv(p + 1, 64)))
+    if not a.path:
+        st.ckey[a.cell] = p + 1
+    return guard, option(ex, has, PlaceRef(ref.cell, ref.path + (('vecitem', p),)))
+
+
+def m_iter_mut_find(ex, m, argv, guard, st, callee):
+    """IterMut::find(pure predicate): Some(place of the first matching element); the index of that element is a term."""
+    it = _iter_mut_get(ex, st, argv[0])
+    ref, p0 = it.f['ref'], zsimp(it.f['pos'])
+    if not z3.is_bv_value(p0):
+        raise Unsupported("IterMut::find at a symbolic position")
+    p0 = p0.as_long()
+    v = ex.read_ref(st, ref)
+    items = v.f['items'].fields
+    cl = argv[1]
+    target = find_closure(ex, cl.tag)
+    ex.fresh_n += 1
+    cell = (0, 'closure%d' % ex.fresh_n)
+    st.mem[cell] = cl
+    first = target.fn.params[0][1]
+    idx, found = bv(len(items), 64), z3.BoolVal(False)
+    for j in range(len(items) - 1, p0 - 1, -1):
+        if items[j] is None:
+            continue
+        active = zsimp(z3.ULT(bv(j, 64), v.f['len']))
+        if z3.is_false(active):
+            continue
+        a0 = PlaceRef(cell) if first.startswith('&mut') else ValRef(cl)
+        place = PlaceRef(ref.cell, ref.path + (('vecitem', j),))
+        g2, b = ex.call_function(target.fn, [a0, ValRef(place)], zand(guard, active), st.copy())
+        hit = zand(active, b)
+        idx = zite(hit, bv(j, 64), idx)
+        found = zor(hit, found)
+    del st.mem[cell]
+    idx = zsimp(idx)
+    if isinstance(argv[0], PlaceRef):
+        pass        # the iterator is consumed by the callers modelled here (find on a temporary)
+    return guard, option(ex, zsimp(found), PlaceRef(ref.cell, ref.path + (('vecsel', idx),)))
+
+
+def m_filter_find(ex, m, argv, guard, st, callee):
+    """Filter<slice::Iter, p>::find(q): the first element in range that satisfies both pure predicates."""
+    fi = ex.read_ref(st, argv[0]) if isinstance(argv[0], PlaceRef) else argv[0]
+    if not (isinstance(fi, Model) and fi.kind == 'filter_iter'):
+        raise Unsupported("find on %r" % (fi,))
+    it, cl1, cl2 = fi.f['it'], fi.f['fn'], argv[1]
+    s = it.f['slice']
+    t1, t2 = find_closure(ex, cl1.tag), find_closure(ex, cl2.tag)
+    ex.fresh_n += 1
+    c1, c2 = (0, 'closure%da' % ex.fresh_n), (0, 'closure%db' % ex.fresh_n)
+    st.mem[c1], st.mem[c2] = cl1, cl2
+    res = EnumV(ex.defs.find_enum('Option'), bv(0, 64), {'None': ()})
+    for j in range(len(s.backing) - 1, -1, -1):
+        elem = s.backing[j]
+        active = zsimp(zand(z3.ULE(s.start + it.f['pos'], bv(j, 64)), z3.ULT(bv(j, 64), s.start + s.length)))
+        if z3.is_false(active) or elem is None:
+            continue
+        item = ValRef(elem) if it.f['by_ref'] else elem
+        _g, b1 = ex.call_function(t1.fn, [PlaceRef(c1), ValRef(item)], zand(guard, active), st.copy())
+        _g, b2 = ex.call_function(t2.fn, [PlaceRef(c2), ValRef(item)], zand(guard, active, b1), st.copy())
+        hit = zand(active, b1, b2)
+        res = ite_val(hit, EnumV(ex.defs.find_enum('Option'), bv(1, 64), {'Some': (item,)}), res)
+    del st.mem[c1]
+    del st.mem[c2]
+    return guard, res
+
+
+def m_range_next(ex, m, argv, guard, st, callee):
+    ref = argv[0]
+    if not isinstance(ref, PlaceRef):
+        raise Unsupported("Range::next through %s" % type(ref).__name__)
+    r = ex.read_ref(st, ref)
+    lo, hi = r.fields[0], r.fields[1]
+    has = zsimp(z3.ULT(lo, hi)) if not ex.var_bounds else (lambda d: z3.BoolVal(d) if d is not None else zsimp(z3.ULT(lo, hi)))(ex.decide_cmp('Lt', zsimp(lo), zsimp(hi)))
+    ex.write_cell(st, ref.cell, ref.path, Agg([zsimp(zite(has, lo + bv(1, lo.size()), lo)), hi], r.tag))
+    return guard, option(ex, has, lo)
+
+
+def m_split_off_first(ex, m, argv, guard, st, callee):
+    ref = argv[0]
+    if not isinstance(ref, PlaceRef):
+        raise Unsupported("split_off_first through %s" % type(ref).__name__)
+    s = ex.read_ref(st, ref)
+    if not isinstance(s, SliceRef):
+        raise Unsupported("split_off_first on %s" % type(s).__name__)
+    none = EnumV(ex.defs.find_enum('Option'), bv(0, 64), {'None': ()})
+    if not s.backing:
+        return guard, none
+    nonempty = zsimp(s.length != bv(0, 64))
+    first = ValRef(select(s.backing, s.start)) if not z3.is_false(nonempty) else None
+    ex.write_cell(st, ref.cell, ref.path,
+                  SliceRef(s.backing, zsimp(zite(nonempty, s.start + bv(1, 64), s.start)), zsimp(zite(nonempty, s.length - bv(1, 64), s.length))))
+    if first is None:
+        return guard, none
+    return guard, option(ex, nonempty, first)
+
+
+def m_option_copied(ex, m, argv, guard, st, callee):
+    o = argv[0]
+    if 'Some' not in o.variants:
+        return guard, o
+    inner = o.variants['Some'][0]
+    v = ex.deref(st, inner) if isinstance(inner, (ValRef, PlaceRef)) else inner
+    return guard, EnumV(o.edef, o.discr, {'None': (), 'Some': (v,)})
+
+
+def m_vec_index(ex, m, argv, guard, st, callee):
+    sl_g, sl = m_vec_deref(ex, m, argv, guard, st, callee)
+    i = argv[1]
+    bad = z3.UGE(i, sl.length)
+    ex.oblige('panic', zand(guard, bad), 'Vec index out of bounds')
+    if not sl.backing:
+        return FALSE, None
+    return zand(guard, znot(bad)), ValRef(select(sl.backing, sl.start + i))
+
+
+def m_vec_index_range(ex, m, argv, guard, st, callee):
+    """Vec / slice indexed by RangeFrom, Range, RangeTo: a sub-slice, with the bounds check as an obligation."""
+    if m.group(1) == 'Vec':
+        _g, sl = m_vec_deref(ex, m, argv, guard, st, callee)
+    else:
+        sl = as_slice(ex, st, argv[0])
+    r = argv[1]
+    kind = m.group(2)
+    if kind == 'RangeFrom':
+        lo, hi = r.fields[0], sl.length
+    elif kind == 'RangeTo':
+        lo, hi = bv(0, 64), r.fields[0]
+    else:
+        lo, hi = r.fields[0], r.fields[1]
+    bad = zor(z3.UGT(lo, hi), z3.UGT(hi, sl.length))
+    ex.oblige('panic', zand(guard, bad), 'range index out of bounds')
+    return zand(guard, znot(bad)), SliceRef(sl.backing, zsimp(sl.start + lo), zsimp(hi - lo))
+
+
+def m_to_le_bytes(ex, m, argv, guard, st, callee):
+    w = INT_W[m.group(1)]
+    v = argv[0]
+    return guard, Agg([z3.Extract(8 * k + 7, 8 * k, v) for k in range(w // 8)], 'array')
+
+
+def m_from_le_bytes(ex, m, argv, guard, st, callee):
+    a = argv[0]
+    bs = list(a.fields)
+    return guard, z3.Concat(*reversed(bs)) if len(bs) > 1 else bs[0]
+
+
+def m_into_generic(ex, m, argv, guard, st, callee):
+    src, dst = m.group(1).strip(), m.group(2).strip()
+    if strip_paths(src) == strip_paths(dst) and src.split('::')[-1] == dst.split('::')[-1] and src == dst:
+        return guard, argv[0]
+    target = ex.resolve_callee('<%s as From<%s>>::from' % (dst, src))
+    if target is None:
+        if int_info(src) and int_info(dst):
+            return m_from_int(ex, re.match(r'(\w+) (\w+)', '%s %s' % (dst, src)), argv, guard, st, callee)
+        if src == dst:
+            return guard, argv[0]
+        raise Unsupported("Into %s -> %s: no From impl in the dump" % (src, dst))
+    return ex.call_function_multi(target, argv, guard, st)
+
+
+def m_fn_trait_call(ex, m, argv, guard, st, callee):
+    f = argv[0]
+    args = argv[1]
+    spread = [] if isinstance(args, Unit) else list(args.fields)
+    inner = f
+    while isinstance(inner, (ValRef, PlaceRef)):
+        inner = ex.deref(st, inner)
+    if isinstance(inner, FnItem):
+        return ex.do_call(None_fn, inner.text, spread, guard, st)
+    if isinstance(inner, Agg) and inner.tag and inner.tag.startswith('{closure@'):
+        target = find_closure(ex, inner.tag)
+        first = target.fn.params[0][1]
+        a0 = f if isinstance(f, (ValRef, PlaceRef)) and first.startswith('&') else (ValRef(inner) if first.startswith('&') else inner)
+        return ex.call_function_multi(target.fn, [a0] + spread, guard, st)
+    raise Unsupported("Fn::call on %r" % (inner,))
+
+
+def m_enumset_new(ex, m, argv, guard, st, callee):
+    return guard, bv(0, ex.abstract_types.get('EnumSet', 8))
+
+
+def m_enumset_from(ex, m, argv, guard, st, callee):
+    w = ex.abstract_types.get('EnumSet', 8)
+    return guard, _enum_bit(ex, argv[0], w)
+
+
+def m_enumset_difference(ex, m, argv, guard, st, callee):
+    a, b = deref_any(ex, st, argv[0]), deref_any(ex, st, argv[1])
+    return guard, a & ~b
+
+
+def m_assume_init_mut(ex, m, argv, guard, st, callee):
+    return guard, argv[0]
+
+
+def m_option_is_none_val(ex, m, argv, guard, st, callee):
+    o = deref_any(ex, st, argv[0])
+    return guard, o.discr == bv(0, 64)
+
+
 def m_noop_unit(ex, m, argv, guard, st, callee):
     return guard, UNIT
 
@@ -1211,6 +1597,20 @@ _EX = [None]
 def register(ex):
     _EX[0] = ex
     A = ex.add_model
+    A(r'^(?:std::collections::)?HashSet::<u32>::new$', m_hashset_new, 'HashSet<u32>::new (bit set)')
+    A(r'^(?:std::collections::)?HashSet::<u32>::insert$', m_hashset_insert, 'HashSet<u32>::insert (bit set)')
+    A(r'^(?:std::collections::)?HashSet::<u32>::contains::<u32>$', m_hashset_contains, 'HashSet<u32>::contains (bit set)')
+    A(r'^(?:std::collections::)?HashSet::<u32>::is_empty$', m_hashset_is_empty, 'HashSet<u32>::is_empty (bit set)')
+    A(r'^(?:std::collections::)?HashSet::<u32>::len$', m_hashset_len, 'HashSet<u32>::len (bit set)')
+    A(r'^<&(?:std::collections::)?HashSet<u32> as (?:std::ops::)?(BitOr|BitAnd|Sub|BitXor)(?:<.*>)?>::(?:bitor|bitand|sub|bitxor)$', m_hashset_binop, 'set union/intersection/difference on &HashSet<u32> (bit set)')
+    A(r'^core::slice::<impl \[.*\]>::iter_mut$', m_vec_iter_mut, 'slice::iter_mut over a whole Vec')
+    A(r'^<&mut (?:std::vec::)?Vec<.*> as (?:std::iter::)?IntoIterator>::into_iter$', m_vec_iter_mut, '<&mut Vec<T>>::into_iter')
+    A(r'^<(?:std::slice::)?IterMut<.*> as (?:std::iter::)?Iterator>::next$', m_iter_mut_next, 'slice::IterMut::next (places inside the Vec)')
+    A(r'^<(?:std::slice::)?IterMut<.*> as (?:std::iter::)?Iterator>::find::<\{closure@.*$', m_iter_mut_find, 'slice::IterMut::find with a pure predicate (symbolic element place)')
+    A(r'^<(?:std::slice::)?IterMut<.*> as (?:std::iter::)?IntoIterator>::into_iter$', m_identity_iter, 'IntoIterator for IterMut (identity)')
+    A(r'^<(?:std::iter::)?Filter<(?:std::slice::)?Iter<.*>, \{closure@.*\}> as (?:std::iter::)?Iterator>::find::<\{closure@.*$', m_filter_find, 'Filter<slice::Iter, p>::find with pure predicates')
+    A(r'^<(?:std::ops::)?Range<u(?:8|16|32|64)> as (?:std::iter::)?IntoIterator>::into_iter$', m_identity_iter, 'Range<uN>::into_iter (identity)')
+    A(r'^<(?:std::ops::)?Range<u(?:8|16|32|64)> as (?:std::iter::)?Iterator>::next$', m_range_next, 'Range<uN>::next')
     A(r'^(?:std::vec::)?Vec::<.*>::(len|capacity)$', m_vec_len, 'Vec::len/capacity (fixed-slot model)')
     A(r'^(?:std::vec::)?Vec::<.*>::new$', m_vec_new, 'Vec::new (fixed-slot model)')
     A(r'^(?:std::vec::)?Vec::<.*>::pop$', m_vec_pop, 'Vec::pop')
@@ -1224,6 +1624,23 @@ def register(ex):
     A(r'^core::slice::<impl \[.*\]>::reverse$', m_slice_reverse, 'slice::reverse on a whole Vec')
     A(r'^core::slice::<impl \[.*\]>::last_mut$', m_last_mut, 'slice::last_mut on a whole Vec')
     A(r'^<(?:std::slice::)?Iter<.*> as (?:std::iter::)?Iterator>::find::<\{closure@.*$', m_iter_find, 'slice::Iter::find with a pure predicate')
+    A(r'^<(?:std::slice::)?Iter<.*> as (?:std::iter::)?Iterator>::filter::<\{closure@.*$', m_iter_filter, 'slice::Iter::filter (lazy)')
+    A(r'^<(?:std::iter::)?Filter<(?:std::slice::)?Iter<.*>, \{closure@.*\}> as (?:std::iter::)?Iterator>::count$', m_filter_count, 'Filter<slice::Iter, closure>::count')
+    A(r'^<(?:std::ops::)?Range<usize> as (?:std::iter::)?IntoIterator>::into_iter$', m_identity_iter, 'Range::into_iter (identity)')
+    A(r'^<(?:std::ops::)?Range<usize> as (?:std::iter::)?Iterator>::next$', m_range_next, 'Range<usize>::next')
+    A(r'^core::slice::<impl \[.*\]>::split_off_first$', m_split_off_first, 'slice::split_off_first')
+    A(r'^(?:std::option::)?Option::<&.*>::copied$', m_option_copied, 'Option<&T>::copied')
+    A(r'^<(?:std::vec::)?(Vec)<.*> as (?:std::ops::)?Index<(?:std::ops::)?(RangeFrom|RangeTo|Range)<usize>>>::index$', m_vec_index_range, 'Vec::index(range)')
+    A(r'^<\[(.*)\] as (?:std::ops::)?Index<(?:std::ops::)?(RangeFrom|RangeTo|Range)<usize>>>::index$', m_vec_index_range, 'slice::index(range)')
+    A(r'^<(?:std::vec::)?Vec<.*> as (?:std::ops::)?Index<usize>>::index$', m_vec_index, 'Vec::index(usize)')
+    A(r'^core::num::<impl (u(?:16|32|64|128))>::to_le_bytes$', m_to_le_bytes, 'uN::to_le_bytes')
+    A(r'^core::num::<impl (u(?:16|32|64|128))>::from_le_bytes$', m_from_le_bytes, 'uN::from_le_bytes')
+    A(r'^<(.*) as (?:std::convert::)?Into<(.*)>>::into$', m_into_generic, 'Into::into via the From impl in the dump')
+    A(r'^<impl (?:std::ops::)?Fn\(.*\) -> .* as (?:std::ops::)?Fn(?:Mut|Once)?<.*>>::call(?:_mut|_once)?$', m_fn_trait_call, 'call through an `impl Fn` parameter')
+    A(r'^(?:enumset::)?EnumSet::<.*>::(?:new|empty)$', m_enumset_new, 'EnumSet::new')
+    A(r'^<(?:enumset::)?EnumSet<.*> as (?:std::convert::)?From<.*>>::from$', m_enumset_from, 'EnumSet::from(flag)')
+    A(r'^(?:enumset::)?EnumSet::<.*>::difference$', m_enumset_difference, 'EnumSet::difference')
+    A(r'^(?:std::mem::)?MaybeUninit::<.*>::assume_init_mut$', m_assume_init_mut, 'MaybeUninit::assume_init_mut')
     A(r'^<(?:std::boxed::)?Box<.*> as (?:std::ops::)?Drop>::drop$', m_noop_unit, 'Box drop (no-op)')
     A(r'^<bool as (?:std::default::)?Default>::default$', m_bool_default, 'bool::default')
     A(r'^(?:std::vec::)?Vec::<.*>::with_capacity$', m_hvec_with_capacity, 'Vec::with_capacity (heap model with initialisation flags)')
